@@ -66,21 +66,72 @@ public final class EcOps {
         return val(add(pt(a), pt(b), big(p)));
     }
 
+    // ---- Jacobian arithmetic (a = 0) used only inside ecMul; result converted back to affine.
+    // (X, Y, Z) represents (X/Z^2, Y/Z^3); null is the identity.
+    private static BigInteger[] jDbl(BigInteger[] a, BigInteger p) {
+        if (a == null || a[1].signum() == 0) {
+            return null;
+        }
+        BigInteger yy = a[1].multiply(a[1]).mod(p);
+        BigInteger s = a[0].multiply(yy).shiftLeft(2).mod(p);
+        BigInteger m = a[0].multiply(a[0]).multiply(BigInteger.valueOf(3)).mod(p);
+        BigInteger x3 = m.multiply(m).subtract(s.shiftLeft(1)).mod(p);
+        BigInteger y3 = m.multiply(s.subtract(x3)).subtract(yy.multiply(yy).shiftLeft(3)).mod(p);
+        BigInteger z3 = a[1].multiply(a[2]).shiftLeft(1).mod(p);
+        return new BigInteger[] {x3, y3, z3};
+    }
+
+    /** Jacobian a + affine b (b != identity). */
+    private static BigInteger[] jAddAffine(BigInteger[] a, BigInteger[] b, BigInteger p) {
+        if (a == null) {
+            return new BigInteger[] {b[0], b[1], BigInteger.ONE};
+        }
+        BigInteger zz = a[2].multiply(a[2]).mod(p);
+        BigInteger u2 = b[0].multiply(zz).mod(p);
+        BigInteger s2 = b[1].multiply(zz).multiply(a[2]).mod(p);
+        BigInteger h = u2.subtract(a[0]).mod(p);
+        BigInteger r = s2.subtract(a[1]).mod(p);
+        if (h.signum() == 0) {
+            return r.signum() == 0 ? jDbl(a, p) : null;
+        }
+        BigInteger hh = h.multiply(h).mod(p);
+        BigInteger hhh = hh.multiply(h).mod(p);
+        BigInteger v = a[0].multiply(hh).mod(p);
+        BigInteger x3 = r.multiply(r).subtract(hhh).subtract(v.shiftLeft(1)).mod(p);
+        BigInteger y3 = r.multiply(v.subtract(x3)).subtract(a[1].multiply(hhh)).mod(p);
+        BigInteger z3 = a[2].multiply(h).mod(p);
+        return new BigInteger[] {x3, y3, z3};
+    }
+
+    private static BigInteger[] jToAffine(BigInteger[] a, BigInteger p) {
+        if (a == null || a[2].signum() == 0) {
+            return null;
+        }
+        BigInteger zi = a[2].modInverse(p);
+        BigInteger zi2 = zi.multiply(zi).mod(p);
+        return new BigInteger[] {a[0].multiply(zi2).mod(p), a[1].multiply(zi2).multiply(zi).mod(p)};
+    }
+
+    static BigInteger[] mul(BigInteger kk, BigInteger[] base, BigInteger pp) {
+        if (base == null) {
+            return null;
+        }
+        BigInteger[] acc = null;
+        for (int i = kk.bitLength() - 1; i >= 0; i--) {
+            acc = jDbl(acc, pp);
+            if (kk.testBit(i)) {
+                acc = jAddAffine(acc, base, pp);
+            }
+        }
+        return jToAffine(acc, pp);
+    }
+
     @TLAPlusOperator(identifier = "EcMul", module = "Group", warn = false)
     public static Value ecMul(Value k, Value a, Value p) {
         BigInteger kk = big(k);
         if (kk.signum() < 0) {
             Assert.fail("Group: EcMul with negative scalar");
         }
-        BigInteger pp = big(p);
-        BigInteger[] base = pt(a);
-        BigInteger[] acc = null;
-        for (int i = kk.bitLength() - 1; i >= 0; i--) {
-            acc = add(acc, acc, pp);
-            if (kk.testBit(i)) {
-                acc = add(acc, base, pp);
-            }
-        }
-        return val(acc);
+        return val(mul(kk, pt(a), big(p)));
     }
 }
